@@ -11,6 +11,7 @@ import Qentem.Proofs.NumToStrLayout
 import Qentem.Proofs.NumToStrDefault
 import Qentem.Proofs.NumToStrDefaultRound
 import Qentem.Proofs.NumToStrFixedRound
+import Qentem.Proofs.NumToStrDefaultGe1
 /-! C10 — number to text equals the reference formatting for every value and precision.
 
 Model: `Qentem.NumToStr` (transcription of `Digit.hpp`), reference: `Qentem.FmtSpec` (ISO C
@@ -307,6 +308,20 @@ theorem format_eq_spec_short_fractions (pre : List Nat) (bits p f : Nat) (hf : f
 example : fracBits64 0x3FD8000000000000 = 3 ∧ fracBits64 0xC0934A4000000000 = 4 := by decide
 example : realToString f64 [] 0xC0934A4000000000 6 fmtFixed =
     .ok [45, 49, 50, 51, 52, 46, 53, 54, 50, 53, 48, 48] := by decide +kernel   -- -1234.562500
+
+/-- `format_eq_spec_default_large`: **Default (`%.{p}g`) for every double ≥ 1 whose digit estimate
+`⌊e·30103/100000⌋+1` exceeds `P`** (so for every |x| ≥ 10^P, e.g. all |x| ≥ 1e40 at any precision ≤ 40), integer or
+not: the pipeline drops `estimate − P − 1` integer digits, keeps the fraction and the dropped digits in the sticky
+flag, rounds half-even to `P` digits and prints `d.ddde+XX` — exactly the reference. -/
+theorem format_eq_spec_default_large (pre : List Nat) (bits p : Nat) (hp : p ≤ 40)
+    (hfin : (bits / 2 ^ 52) % 2 ^ 11 ≠ 2 ^ 11 - 1) (hge1 : 1023 ≤ (bits / 2 ^ 52) % 2 ^ 11)
+    (hx : (if p = 0 then 1 else p) < ((bits / 2 ^ 52) % 2 ^ 11 - 1023) * 30103 / 100000 + 1) :
+    realToString f64 pre bits p fmtDefault = .ok (pre ++ FmtSpec.format64 bits p (specFmt fmtDefault)) :=
+  Qentem.Proofs.NumToStr.default_extra64 pre bits p hp hfin hge1 hx
+
+/-- test: 1521525.3 at 6 digits (witness of a repaired defect) → 1.52153e+06 -/
+example : realToString f64 [] 0x413737754CCCCCCD 6 fmtDefault =
+    .ok [49, 46, 53, 50, 49, 53, 51, 101, 43, 48, 54] := by decide +kernel
 
 /-- `format_eq_spec_fixed_ge1`: **Fixed (`%.{p}f`) and SemiFixed for every finite double of magnitude ≥ 1**,
 every precision ≤ 40, after any stream contents.  Integers print exactly; values whose binary fraction has at
